@@ -50,6 +50,30 @@ def tt_reshape(E, s):
     E.true('dense_shape', list(yd.shape) == list(ref.shape))
     _accuracy(E, 'accuracy', yd, ref, e, 2)
     E.eq('operand_value', dense(E, x.cores), xd)
+    if s.get('then'):
+        _second_call(E, s, x, xd, eps, e)
+
+
+def _second_call(E, s, x, xd, eps, e):
+    """history: the same object is transformed a second time (the first result is kept alive); the second result is
+    judged against the object's value exactly like the first"""
+    tn = E.tn
+    kind, arg = s['then']
+    if eps is None:
+        e = 1e-12 if kind == 'permute' else 1e-16          # the default accuracy of the second routine
+    if kind == 'permute':
+        y2 = E.tt.permute(x, list(arg)) if eps is None else E.tt.permute(x, list(arg), eps)
+        ref2 = tn.permute(xd, list(arg))
+        c = 1
+    else:
+        y2 = E.tt.reshape(x, list(arg)) if eps is None else E.tt.reshape(x, list(arg), eps)
+        ref2 = tn.reshape(xd, list(arg))
+        c = 2
+    E.true('second_shape', list(y2.N) == list(ref2.shape))
+    yd2 = dense(E, y2.cores)
+    if list(yd2.shape) == list(ref2.shape):
+        _accuracy(E, 'second_accuracy', yd2, ref2, e, c)
+    E.eq('operand_value_after_second', dense(E, x.cores), xd)
 
 
 @scenario
@@ -78,6 +102,8 @@ def tt_permute(E, s):
     E.true('dense_shape', list(yd.shape) == list(ref.shape))
     _accuracy(E, 'accuracy', yd, ref, e, 1)
     E.eq('operand_value', dense(E, x.cores), xd)
+    if s.get('then') and M is None:
+        _second_call(E, s, x, xd, eps, e)
 
 
 @scenario
